@@ -448,7 +448,10 @@ template <class T> static Inst build(const char* shape, Chooser& ch) {
 // what a sender does last: the library's own add_checksum() over the bytes (body in place, checksum member zero)
 template <class T> static void sign(std::string& bytes) {
     if (!std::is_base_of<K, T>::value || bytes.size() < sizeof(T)) return;
-    IOVector iov; iov.push_back(&bytes[0], bytes.size());
+    // same piece structure as SerializerIOV: the variable part, then the body as a piece of its own
+    IOVector iov;
+    if (bytes.size() > sizeof(T)) iov.push_back(&bytes[0], bytes.size() - sizeof(T));
+    iov.push_back(&bytes[bytes.size() - sizeof(T)], sizeof(T));
     T* t = (T*)&bytes[bytes.size() - sizeof(T)];
     memset((void*)t, 0, sizeof(uint32_t));       // CheckedMessage<>::m_checksum is the first member (checked at start-up)
     t->add_checksum(&iov);
